@@ -7,7 +7,7 @@ cd /verif
 props=${@:-$(seq -f 'C%02g' 1 20)}
 one() { # dir property
   out=$(bin/mkdbcheck -property $2 -no-evidence -patch $1/patch.diff 2>&1)
-  if echo "$out" | grep -q '^VIOLATION'; then echo "$(basename $1) $2 VIOL"; elif echo "$out" | grep -q '^UNDECIDED'; then echo "$(basename $1) $2 UNDEC"; elif echo "$out" | grep -qE '^patch:|panic|load error'; then echo "$(basename $1) $2 ERROR"; else echo "$(basename $1) $2 quiet"; fi
+  if echo "$out" | grep -q '^VIOLATION'; then echo "$(basename $1) $2 VIOL"; elif echo "$out" | grep -q '^UNDECIDED'; then echo "$(basename $1) $2 UNDEC"; elif echo "$out" | grep -qE "^patch:|^panic:|^load error"; then echo "$(basename $1) $2 ERROR"; else echo "$(basename $1) $2 quiet"; fi
 }
 export -f one
 for p in $props; do
